@@ -6,6 +6,7 @@
 #pragma once
 
 #include <tao/pegtl/contrib/coverage.hpp>
+#include <tao/pegtl/contrib/parse_tree.hpp>
 #include <tao/pegtl/contrib/state_control.hpp>
 
 #include <csignal>
@@ -31,6 +32,7 @@ namespace vf
       bool have_act;  // action family attached (false: tao::pegtl::nothing)
       int eol;
       std::size_t byte0 = 0, line0 = 1, column0 = 1;  // initial counters of the input
+      int tree_sel = -1;  // >= 0: this configuration builds a parse tree with selector number tree_sel
    };
 
    struct gram_entry
@@ -45,6 +47,8 @@ namespace vf
       bool scripted_veto = false;  // grammar has bool actions placed where vetoing is sound
       bool scripted_throw = false;
       bool visited_check = false;
+      // parse-tree selectors: per selector the mode of every model node (0 unselected, 1 store_content, 2 remove_content, 3 fold_one, 4 discard_empty)
+      std::vector< std::vector< int > > sel_modes;
       int maxlen_quick = 5, maxlen_thorough = 7;
       std::vector< std::string > extra;  // explicit additional inputs
       std::vector< cfg_entry > cfgs;
@@ -100,6 +104,180 @@ namespace vf
          }
          p = q + 1;
       }
+   }
+
+   // ---- parse trees ----------------------------------------------------------------------------------------
+   struct xnode
+   {
+      int node = -1;
+      int b = 0, e = 0;
+      bool content = true;
+      std::string tname;  // implementation side: the node's type text
+      std::size_t pbyte = 0, pline = 0, pcolumn = 0;
+      std::vector< xnode > kids;
+   };
+   inline std::unique_ptr< xnode >& impl_tree()
+   {
+      static std::unique_ptr< xnode > t;
+      return t;
+   }
+   template< typename Node >
+   void convert_tree( const Node& n, xnode& out, const char* base, bool check_pos )
+   {
+      out.tname = std::string( n.type );
+      out.content = n.is_root() ? false : n.has_content();
+      if( !n.is_root() ) {
+         out.b = int( n.m_begin.data - base );
+         out.e = n.has_content() ? int( n.m_end.data - base ) : out.b;
+         if( check_pos ) {
+            const auto p = n.begin();
+            mon().check_position( "parse_tree_node_begin", out.tname.c_str(), n.m_begin.data, p, 0 );
+            if( n.has_content() ) {
+               const auto q = n.end();
+               mon().check_position( "parse_tree_node_end", out.tname.c_str(), n.m_end.data, q, 0 );
+            }
+         }
+      }
+      for( const auto& c : n.children ) {
+         out.kids.emplace_back();
+         convert_tree( *c, out.kids.back(), base, check_pos );
+      }
+   }
+   // expected tree: the model's derivation tree restricted to the selected rule types, transformers applied bottom-up
+   inline std::vector< xnode > expected_tree( const pm::tnode& t, const std::vector< int >& modes )
+   {
+      std::vector< xnode > kids;
+      for( const pm::tnode& k : t.kids ) {
+         std::vector< xnode > x = expected_tree( k, modes );
+         for( auto& y : x ) {
+            kids.push_back( std::move( y ) );
+         }
+      }
+      const int mode = t.node >= 0 ? modes[ std::size_t( t.node ) ] : 1;
+      if( mode == 0 ) {
+         return kids;
+      }
+      xnode n;
+      n.node = t.node;
+      n.b = t.begin;
+      n.e = t.end;
+      n.kids = std::move( kids );
+      switch( mode ) {
+         case 2:
+            n.content = false;
+            break;
+         case 3:
+            if( n.kids.size() == 1 ) {
+               std::vector< xnode > r;
+               r.push_back( std::move( n.kids[ 0 ] ) );
+               return r;
+            }
+            n.content = false;
+            break;
+         case 4:
+            if( n.kids.empty() ) {
+               return {};
+            }
+            n.content = false;
+            break;
+         default:
+            break;
+      }
+      std::vector< xnode > r;
+      r.push_back( std::move( n ) );
+      return r;
+   }
+   inline std::string tree_text( const xnode& n, const pm::grammar* g )
+   {
+      std::string s = g ? ( n.node >= 0 ? g->nodes[ std::size_t( n.node ) ].tname : std::string( "root" ) ) : ( n.tname.empty() ? std::string( "root" ) : n.tname );
+      if( n.content ) {
+         s += "[" + std::to_string( n.b ) + "," + std::to_string( n.e ) + ")";
+      }
+      else if( n.node >= 0 || !n.tname.empty() ) {
+         s += "[no content]";
+      }
+      if( !n.kids.empty() ) {
+         s += "{ ";
+         for( const auto& k : n.kids ) {
+            s += tree_text( k, g ) + " ";
+         }
+         s += "}";
+      }
+      return s;
+   }
+   inline bool same_tree( const xnode& want, const xnode& got, const pm::grammar& g )
+   {
+      if( want.node >= 0 ) {
+         if( g.nodes[ std::size_t( want.node ) ].tname != got.tname || want.content != got.content ) {
+            return false;
+         }
+         if( want.content && ( want.b != got.b || want.e != got.e ) ) {
+            return false;
+         }
+      }
+      if( want.kids.size() != got.kids.size() ) {
+         return false;
+      }
+      for( std::size_t i = 0; i < want.kids.size(); ++i ) {
+         if( !same_tree( want.kids[ i ], got.kids[ i ], g ) ) {
+            return false;
+         }
+      }
+      return true;
+   }
+
+   template< typename Top,
+             template< typename... >
+             class Selector,
+             template< typename... >
+             class Action,
+             pegtl::tracking_mode T,
+             typename Eol >
+   impl_result runner_tree( const probe& pb )
+   {
+      pegtl::memory_input< T, Eol, const char* > in( pb.begin(), pb.end(), "src" );
+      impl_result r;
+      monitor& m = mon();
+      impl_tree().reset();
+      try {
+         light_begins().clear();
+         auto root = pegtl::parse_tree::parse< Top, Selector, Action, light_control >( in );
+         r.k = root ? pm::OK : pm::FAIL;
+         if( root ) {
+            impl_tree() = std::make_unique< xnode >();
+            convert_tree( *root, *impl_tree(), m.base, true );
+         }
+      }
+      catch( const pegtl::parse_error& e ) {
+         r.k = pm::RAISED;
+         r.message = std::string( e.message() );
+         r.what = e.what();
+         r.byte = e.position_object().byte;
+         r.line = e.position_object().line;
+         r.column = e.position_object().column;
+         r.source = e.position_object().source;
+         try {
+            std::rethrow_if_nested( e );
+         }
+         catch( ... ) {
+            r.nested = true;
+         }
+      }
+      catch( const foreign_exc& e ) {
+         r.k = pm::THROWN;
+         r.serial = e.serial;
+      }
+      catch( const foreign_std_exc& e ) {
+         r.k = pm::THROWN;
+         r.serial = e.serial;
+      }
+      catch( const std::exception& e ) {
+         r.k = pm::THROWN;
+         r.other_exception = true;
+         r.other_what = e.what();
+      }
+      r.end = m.off( in.current() );
+      return r;
    }
 
    // ---- state_control protocol state: sees the hooks of ALL rules (enable = true), checks call-stack discipline ----
@@ -402,6 +580,7 @@ namespace vf
          r.mm->byte0 = long( cf.byte0 );
          r.mm->col0 = long( cf.column0 );
          r.mm->ignore_actions = ( which == 2 );
+         r.mm->build_tree = !ge.sel_modes.empty();
          r.want = r.mm->run_cfg( which != 1 );
          r.ev = r.mm->events;
          return r;
@@ -498,6 +677,28 @@ namespace vf
                   vs.push_back( { "C05", "raise-what", "what() = '" + got.what + "' but source:line:column: message = '" + wantwhat + "'" } );
                }
             }
+            if( got.k == pm::OK && cf.tree_sel >= 0 && std::size_t( cf.tree_sel ) < ge.sel_modes.size() ) {
+               // C12: the returned tree == the model's derivation restricted to the selected rules, transformers applied
+               xnode want_root;
+               want_root.content = false;
+               {
+                  for( const pm::tnode& k : mm.tstack[ 0 ].kids ) {
+                     std::vector< xnode > x = expected_tree( k, ge.sel_modes[ std::size_t( cf.tree_sel ) ] );
+                     for( auto& y : x ) {
+                        want_root.kids.push_back( std::move( y ) );
+                     }
+                  }
+               }
+               if( !impl_tree() ) {
+                  vs.push_back( { "C12", "tree-missing", "parse succeeded but no tree was returned" } );
+               }
+               else if( !same_tree( want_root, *impl_tree(), g ) ) {
+                  vs.push_back( { "C12", std::string( "tree-differs:sel" ) + std::to_string( cf.tree_sel ), "tree returned: " + tree_text( *impl_tree(), nullptr ) + "\n derivation of the selected rules: " + tree_text( want_root, &g ) } );
+               }
+            }
+            if( got.k != pm::OK && cf.tree_sel >= 0 && impl_tree() ) {
+               vs.push_back( { "C12", "tree-without-success", "a tree was returned although the parse did not succeed" } );
+            }
             if( got.k == pm::OK && cf.observed ) {
                // C04: surviving action trace == derivation
                const std::vector< pm::event >& wev = mr.ev;
@@ -535,6 +736,9 @@ namespace vf
          }
          else if( prop == "C08" ) {
             nontrivial = nontrivial || m.unwinds > 0 || m.vetoes > 0;
+         }
+         else if( prop == "C12" ) {
+            nontrivial = nontrivial || ( cf.tree_sel >= 0 && mm.tree_discarded );
          }
          else if( prop == "C09" ) {
             nontrivial = nontrivial || m.failed_after_consuming_optional_left > 0 || want.k == pm::RAISED || mm.backtracked_after_consuming;
